@@ -321,10 +321,10 @@ def replay (cfg : Cfg) (c : Case) : KRes := Id.run do
 /-- Every non-empty combination of the repair flags (the implementation may carry any subset of
     the repairs; DESIGN 1.3). -/
 def fixedVariants (cfg : Cfg) : List Cfg :=
-  (List.range 32).tail.map fun m =>
+  (List.range 64).tail.map fun m =>
     { cfg with fixReapOrphan := m % 2 == 1, fixReack := (m / 2) % 2 == 1,
                fixWinUpdate := (m / 4) % 2 == 1, fixHsReset := (m / 8) % 2 == 1,
-               fixRstAfterClose := (m / 16) % 2 == 1 }
+               fixRstAfterClose := (m / 16) % 2 == 1, fixOrphanTimeout := (m / 32) % 2 == 1 }
 
 /-! ### O: oracles on the implementation's observations -/
 
@@ -535,7 +535,8 @@ def covTags (c : Case) (h : Spec.History) : List String := Id.run do
 /-- Copy the repair flags of `src` onto `cfg`. -/
 def withFlags (cfg src : Cfg) : Cfg :=
   { cfg with fixReapOrphan := src.fixReapOrphan, fixReack := src.fixReack, fixWinUpdate := src.fixWinUpdate,
-             fixHsReset := src.fixHsReset, fixRstAfterClose := src.fixRstAfterClose }
+             fixHsReset := src.fixHsReset, fixRstAfterClose := src.fixRstAfterClose,
+             fixOrphanTimeout := src.fixOrphanTimeout }
 
 def processCase (prop : String) (c : Case) (memo : IO.Ref (Option Cfg)) : IO (Bool × Bool) := do
   let k0 : KRes := if c.nok then { ok := true } else replay c.cfg c
